@@ -7,65 +7,65 @@ func init() {
 	// symbol definition: flags are or-ed into an existing symbol, a second DefParam for the same name is a SyntaxError (duplicate argument), parameters are appended to Varnames in order, a global declaration is mirrored into the module table [symtable.c symtable_add_def]  []
 	pathSpec["symtable|SymTable.AddDef"] = []string{
 		"[!(has(recv.Global.Symbols[string(p2)])) && !(has(recv.Symbols[string(p2)])) && bits(p3,0,1) != 0 && bits(p3,0,4) == 0] recv.Symbols[string(p2)] = composite[0,p3,ret:p1.GetLineno(),ret:p1.GetColOffset()]; recv.Global.Symbols[string(p2)] = composite[0,p3,ret:p1.GetLineno(),ret:p1.GetColOffset()]",
-		"[!(has(recv.Global.Symbols[string(p2)])) && bits(p3,0,1) != 0 && bits(p3,0,4) == 0 && has(recv.Symbols[string(p2)])] sym.Flags |= p3; recv.Symbols[string(p2)] = st.Symbols[p2]; recv.Global.Symbols[string(p2)] = composite[0,p3,ret:p1.GetLineno(),ret:p1.GetColOffset()]",
-		"[!(has(recv.Symbols[string(p2)])) && bits(p3,0,1) != 0 && bits(p3,0,4) == 0 && has(recv.Global.Symbols[string(p2)])] recv.Symbols[string(p2)] = composite[0,p3,ret:p1.GetLineno(),ret:p1.GetColOffset()]; sym.Flags |= p3; recv.Global.Symbols[string(p2)] = st.Global.Symbols[p2]",
+		"[!(has(recv.Global.Symbols[string(p2)])) && bits(p3,0,1) != 0 && bits(p3,0,4) == 0 && has(recv.Symbols[string(p2)])] sym.Flags |= p3; recv.Symbols[string(p2)] = recv.Symbols[p2]; recv.Global.Symbols[string(p2)] = composite[0,p3,ret:p1.GetLineno(),ret:p1.GetColOffset()]",
+		"[!(has(recv.Symbols[string(p2)])) && bits(p3,0,1) != 0 && bits(p3,0,4) == 0 && has(recv.Global.Symbols[string(p2)])] recv.Symbols[string(p2)] = composite[0,p3,ret:p1.GetLineno(),ret:p1.GetColOffset()]; sym.Flags |= p3; recv.Global.Symbols[string(p2)] = recv.Global.Symbols[p2]",
 		"[!(has(recv.Symbols[string(p2)])) && bits(p3,0,1) == 0 && bits(p3,0,4) == 0] recv.Symbols[string(p2)] = composite[0,p3,ret:p1.GetLineno(),ret:p1.GetColOffset()]",
-		"[!(has(recv.Symbols[string(p2)])) && bits(p3,0,4) != 0] recv.Symbols[string(p2)] = composite[0,p3,ret:p1.GetLineno(),ret:p1.GetColOffset()]; recv.Varnames = append(st.Varnames, p2)",
-		"[bits(p3,0,1) != 0 && bits(p3,0,4) == 0 && has(recv.Global.Symbols[string(p2)]) && has(recv.Symbols[string(p2)])] sym.Flags |= p3; recv.Symbols[string(p2)] = st.Symbols[p2]; sym.Flags |= p3; recv.Global.Symbols[string(p2)] = st.Global.Symbols[p2]",
-		"[bits(p3,0,1) == 0 && bits(p3,0,4) == 0 && has(recv.Symbols[string(p2)])] sym.Flags |= p3; recv.Symbols[string(p2)] = st.Symbols[p2]",
-		"[bits(p3,0,4) != 0 && bits(st.Symbols[p2].Flags,0,4) != 0 && has(recv.Symbols[string(p2)])]  -> raise",
-		"[bits(p3,0,4) != 0 && bits(st.Symbols[p2].Flags,0,4) == 0 && has(recv.Symbols[string(p2)])] sym.Flags |= p3; recv.Symbols[string(p2)] = st.Symbols[p2]; recv.Varnames = append(st.Varnames, p2)",
+		"[!(has(recv.Symbols[string(p2)])) && bits(p3,0,4) != 0] recv.Symbols[string(p2)] = composite[0,p3,ret:p1.GetLineno(),ret:p1.GetColOffset()]; recv.Varnames = append(recv.Varnames, p2)",
+		"[bits(p3,0,1) != 0 && bits(p3,0,4) == 0 && has(recv.Global.Symbols[string(p2)]) && has(recv.Symbols[string(p2)])] sym.Flags |= p3; recv.Symbols[string(p2)] = recv.Symbols[p2]; sym.Flags |= p3; recv.Global.Symbols[string(p2)] = recv.Global.Symbols[p2]",
+		"[bits(p3,0,1) == 0 && bits(p3,0,4) == 0 && has(recv.Symbols[string(p2)])] sym.Flags |= p3; recv.Symbols[string(p2)] = recv.Symbols[p2]",
+		"[bits(p3,0,4) != 0 && bits(recv.Symbols[p2].Flags,0,4) != 0 && has(recv.Symbols[string(p2)])]  -> raise",
+		"[bits(p3,0,4) != 0 && bits(recv.Symbols[p2].Flags,0,4) == 0 && has(recv.Symbols[string(p2)])] sym.Flags |= p3; recv.Symbols[string(p2)] = recv.Symbols[p2]; recv.Varnames = append(recv.Varnames, p2)",
 	}
 	// a function read through an instance binds the instance; read through the class it stays a function  []
 	pathSpec["py|Function.M__get__"] = []string{
-		"[p1 != None]  -> composite[p1,f], nil",
-		"[p1 == None]  -> f, nil",
+		"[p1 != None]  -> composite[p1,recv], nil",
+		"[p1 == None]  -> recv, nil",
 	}
 	// a built-in method read through an instance binds the instance; read through the class it stays unbound  []
 	pathSpec["py|Method.M__get__"] = []string{
-		"[p1 != None]  -> composite[p1,m], nil",
-		"[p1 == None]  -> m, nil",
+		"[p1 != None]  -> composite[p1,recv], nil",
+		"[p1 == None]  -> recv, nil",
 	}
 	// a classmethod binds the owner class (the type of the instance when no owner is given), never the instance  []
 	pathSpec["py|ClassMethod.M__get__"] = []string{
-		"[p2 != nil]  -> composite[p2,c.Callable], nil",
-		"[p2 == nil] p1.Type() -> composite[(py.Object).Type#0,c.Callable], nil",
+		"[p2 != nil]  -> composite[p2,recv.Callable], nil",
+		"[p2 == nil] p1.Type() -> composite[(py.Object).Type#0,recv.Callable], nil",
 	}
 	// a staticmethod binds nothing: the plain callable is returned  []
 	pathSpec["py|StaticMethod.M__get__"] = []string{
-		"[]  -> c.Callable, nil",
+		"[]  -> recv.Callable, nil",
 	}
 	// line-at-a-time driver: in continuation mode a non-empty line is only buffered; an empty line (or any line outside continuation mode) compiles buffer+line; an incomplete-input error buffers the line and enters continuation mode; any other outcome leaves continuation mode and clears the buffer before reporting or running  []
 	pathSpec["repl|REPL.Run"] = []string{
-		"[!(py.IsException(py.SystemExit, err!)) && !(recv.continuation) && err == nil && toCompile != \"\"] vm.PrintExpr = r.term.Print; defer(func() { vm.PrintExpr = oldPrintExpr }()); Compile(toCompile + \"\\n\", r.prog, py.SingleMode, 0, true); recv.continuation = false; r.term.SetPrompt(NormalPrompt); recv.previous = \"\"; r.Context.RunCode(dyn:py.Compile#0, r.Module.Globals, r.Module.Globals, nil); TracebackDump(err!) -> nil",
-		"[!(py.IsException(py.SystemExit, err!)) && err == nil && p1 == \"\" && recv.continuation && toCompile != \"\"] vm.PrintExpr = r.term.Print; defer(func() { vm.PrintExpr = oldPrintExpr }()); Compile(toCompile + \"\\n\", r.prog, py.SingleMode, 0, true); recv.continuation = false; r.term.SetPrompt(NormalPrompt); recv.previous = \"\"; r.Context.RunCode(dyn:py.Compile#0, r.Module.Globals, r.Module.Globals, nil); TracebackDump(err!) -> nil",
-		"[!(recv.continuation) && !(strings.Contains((.error).Error#0, \"unexpected EOF while parsing\")) && !(strings.Contains((.error).Error#0, lit)) && err != nil && toCompile != \"\"] vm.PrintExpr = r.term.Print; defer(func() { vm.PrintExpr = oldPrintExpr }()); Compile(toCompile + \"\\n\", r.prog, py.SingleMode, 0, true); recv.continuation = false; r.term.SetPrompt(NormalPrompt); recv.previous = \"\"; r.term.Print(fmt.Sprintf#0) -> nil",
-		"[!(recv.continuation) && !(strings.Contains((.error).Error#0, \"unexpected EOF while parsing\")) && err != nil && len(strings.TrimSpace#0) != 0 && strings.Contains((.error).Error#0, lit) && strings.TrimSpace#0[0] != 35 && toCompile != \"\"] vm.PrintExpr = r.term.Print; defer(func() { vm.PrintExpr = oldPrintExpr }()); Compile(toCompile + \"\\n\", r.prog, py.SingleMode, 0, true); recv.continuation = true; r.previous += string(p1) + \"\\n\"; r.term.SetPrompt(ContinuationPrompt) -> nil",
-		"[!(recv.continuation) && !(strings.Contains((.error).Error#0, \"unexpected EOF while parsing\")) && err != nil && len(strings.TrimSpace#0) != 0 && strings.Contains((.error).Error#0, lit) && strings.TrimSpace#0[0] == 35 && toCompile != \"\"] vm.PrintExpr = r.term.Print; defer(func() { vm.PrintExpr = oldPrintExpr }()); Compile(toCompile + \"\\n\", r.prog, py.SingleMode, 0, true) -> nil",
-		"[!(recv.continuation) && !(strings.Contains((.error).Error#0, \"unexpected EOF while parsing\")) && err != nil && len(strings.TrimSpace#0) == 0 && strings.Contains((.error).Error#0, lit) && toCompile != \"\"] vm.PrintExpr = r.term.Print; defer(func() { vm.PrintExpr = oldPrintExpr }()); Compile(toCompile + \"\\n\", r.prog, py.SingleMode, 0, true); recv.continuation = true; r.previous += string(p1) + \"\\n\"; r.term.SetPrompt(ContinuationPrompt) -> nil",
-		"[!(recv.continuation) && err != nil && len(strings.TrimSpace#0) != 0 && strings.Contains((.error).Error#0, \"unexpected EOF while parsing\") && strings.TrimSpace#0[0] != 35 && toCompile != \"\"] vm.PrintExpr = r.term.Print; defer(func() { vm.PrintExpr = oldPrintExpr }()); Compile(toCompile + \"\\n\", r.prog, py.SingleMode, 0, true); recv.continuation = true; r.previous += string(p1) + \"\\n\"; r.term.SetPrompt(ContinuationPrompt) -> nil",
-		"[!(recv.continuation) && err != nil && len(strings.TrimSpace#0) != 0 && strings.Contains((.error).Error#0, \"unexpected EOF while parsing\") && strings.TrimSpace#0[0] == 35 && toCompile != \"\"] vm.PrintExpr = r.term.Print; defer(func() { vm.PrintExpr = oldPrintExpr }()); Compile(toCompile + \"\\n\", r.prog, py.SingleMode, 0, true) -> nil",
-		"[!(recv.continuation) && err != nil && len(strings.TrimSpace#0) == 0 && strings.Contains((.error).Error#0, \"unexpected EOF while parsing\") && toCompile != \"\"] vm.PrintExpr = r.term.Print; defer(func() { vm.PrintExpr = oldPrintExpr }()); Compile(toCompile + \"\\n\", r.prog, py.SingleMode, 0, true); recv.continuation = true; r.previous += string(p1) + \"\\n\"; r.term.SetPrompt(ContinuationPrompt) -> nil",
-		"[!(recv.continuation) && err == nil && py.IsException(py.SystemExit, err!) && toCompile != \"\"] vm.PrintExpr = r.term.Print; defer(func() { vm.PrintExpr = oldPrintExpr }()); Compile(toCompile + \"\\n\", r.prog, py.SingleMode, 0, true); recv.continuation = false; r.term.SetPrompt(NormalPrompt); recv.previous = \"\"; r.Context.RunCode(dyn:py.Compile#0, r.Module.Globals, r.Module.Globals, nil) -> err!",
-		"[!(recv.continuation) && err == nil && toCompile != \"\"] vm.PrintExpr = r.term.Print; defer(func() { vm.PrintExpr = oldPrintExpr }()); Compile(toCompile + \"\\n\", r.prog, py.SingleMode, 0, true); recv.continuation = false; r.term.SetPrompt(NormalPrompt); recv.previous = \"\"; r.Context.RunCode(dyn:py.Compile#0, r.Module.Globals, r.Module.Globals, nil) -> nil",
-		"[!(recv.continuation) && toCompile == \"\"] vm.PrintExpr = r.term.Print; defer(func() { vm.PrintExpr = oldPrintExpr }()) -> nil",
-		"[!(strings.Contains((.error).Error#0, \"unexpected EOF while parsing\")) && !(strings.Contains((.error).Error#0, lit)) && err != nil && p1 == \"\" && recv.continuation && toCompile != \"\"] vm.PrintExpr = r.term.Print; defer(func() { vm.PrintExpr = oldPrintExpr }()); Compile(toCompile + \"\\n\", r.prog, py.SingleMode, 0, true); recv.continuation = false; r.term.SetPrompt(NormalPrompt); recv.previous = \"\"; r.term.Print(fmt.Sprintf#0) -> nil",
-		"[!(strings.Contains((.error).Error#0, \"unexpected EOF while parsing\")) && err != nil && len(strings.TrimSpace#0) != 0 && p1 == \"\" && recv.continuation && strings.Contains((.error).Error#0, lit) && strings.TrimSpace#0[0] != 35 && toCompile != \"\"] vm.PrintExpr = r.term.Print; defer(func() { vm.PrintExpr = oldPrintExpr }()); Compile(toCompile + \"\\n\", r.prog, py.SingleMode, 0, true); recv.continuation = true; r.previous += string(p1) + \"\\n\"; r.term.SetPrompt(ContinuationPrompt) -> nil",
-		"[!(strings.Contains((.error).Error#0, \"unexpected EOF while parsing\")) && err != nil && len(strings.TrimSpace#0) != 0 && p1 == \"\" && recv.continuation && strings.Contains((.error).Error#0, lit) && strings.TrimSpace#0[0] == 35 && toCompile != \"\"] vm.PrintExpr = r.term.Print; defer(func() { vm.PrintExpr = oldPrintExpr }()); Compile(toCompile + \"\\n\", r.prog, py.SingleMode, 0, true) -> nil",
-		"[!(strings.Contains((.error).Error#0, \"unexpected EOF while parsing\")) && err != nil && len(strings.TrimSpace#0) == 0 && p1 == \"\" && recv.continuation && strings.Contains((.error).Error#0, lit) && toCompile != \"\"] vm.PrintExpr = r.term.Print; defer(func() { vm.PrintExpr = oldPrintExpr }()); Compile(toCompile + \"\\n\", r.prog, py.SingleMode, 0, true); recv.continuation = true; r.previous += string(p1) + \"\\n\"; r.term.SetPrompt(ContinuationPrompt) -> nil",
-		"[err != nil && len(strings.TrimSpace#0) != 0 && p1 == \"\" && recv.continuation && strings.Contains((.error).Error#0, \"unexpected EOF while parsing\") && strings.TrimSpace#0[0] != 35 && toCompile != \"\"] vm.PrintExpr = r.term.Print; defer(func() { vm.PrintExpr = oldPrintExpr }()); Compile(toCompile + \"\\n\", r.prog, py.SingleMode, 0, true); recv.continuation = true; r.previous += string(p1) + \"\\n\"; r.term.SetPrompt(ContinuationPrompt) -> nil",
-		"[err != nil && len(strings.TrimSpace#0) != 0 && p1 == \"\" && recv.continuation && strings.Contains((.error).Error#0, \"unexpected EOF while parsing\") && strings.TrimSpace#0[0] == 35 && toCompile != \"\"] vm.PrintExpr = r.term.Print; defer(func() { vm.PrintExpr = oldPrintExpr }()); Compile(toCompile + \"\\n\", r.prog, py.SingleMode, 0, true) -> nil",
-		"[err != nil && len(strings.TrimSpace#0) == 0 && p1 == \"\" && recv.continuation && strings.Contains((.error).Error#0, \"unexpected EOF while parsing\") && toCompile != \"\"] vm.PrintExpr = r.term.Print; defer(func() { vm.PrintExpr = oldPrintExpr }()); Compile(toCompile + \"\\n\", r.prog, py.SingleMode, 0, true); recv.continuation = true; r.previous += string(p1) + \"\\n\"; r.term.SetPrompt(ContinuationPrompt) -> nil",
-		"[err == nil && p1 == \"\" && py.IsException(py.SystemExit, err!) && recv.continuation && toCompile != \"\"] vm.PrintExpr = r.term.Print; defer(func() { vm.PrintExpr = oldPrintExpr }()); Compile(toCompile + \"\\n\", r.prog, py.SingleMode, 0, true); recv.continuation = false; r.term.SetPrompt(NormalPrompt); recv.previous = \"\"; r.Context.RunCode(dyn:py.Compile#0, r.Module.Globals, r.Module.Globals, nil) -> err!",
-		"[err == nil && p1 == \"\" && recv.continuation && toCompile != \"\"] vm.PrintExpr = r.term.Print; defer(func() { vm.PrintExpr = oldPrintExpr }()); Compile(toCompile + \"\\n\", r.prog, py.SingleMode, 0, true); recv.continuation = false; r.term.SetPrompt(NormalPrompt); recv.previous = \"\"; r.Context.RunCode(dyn:py.Compile#0, r.Module.Globals, r.Module.Globals, nil) -> nil",
-		"[p1 != \"\" && recv.continuation] vm.PrintExpr = r.term.Print; defer(func() { vm.PrintExpr = oldPrintExpr }()); r.previous += string(p1) + \"\\n\" -> nil",
-		"[p1 == \"\" && recv.continuation && toCompile == \"\"] vm.PrintExpr = r.term.Print; defer(func() { vm.PrintExpr = oldPrintExpr }()) -> nil",
+		"[!(py.IsException(py.SystemExit, err!)) && !(recv.continuation) && err == nil && toCompile != \"\"] vm.PrintExpr = recv.term.Print; defer(func() { vm.PrintExpr = oldPrintExpr }()); Compile(toCompile + \"\\n\", recv.prog, py.SingleMode, 0, true); recv.continuation = false; recv.term.SetPrompt(NormalPrompt); recv.previous = \"\"; recv.Context.RunCode(dyn:py.Compile#0, recv.Module.Globals, recv.Module.Globals, nil); TracebackDump(err!) -> nil",
+		"[!(py.IsException(py.SystemExit, err!)) && err == nil && p1 == \"\" && recv.continuation && toCompile != \"\"] vm.PrintExpr = recv.term.Print; defer(func() { vm.PrintExpr = oldPrintExpr }()); Compile(toCompile + \"\\n\", recv.prog, py.SingleMode, 0, true); recv.continuation = false; recv.term.SetPrompt(NormalPrompt); recv.previous = \"\"; recv.Context.RunCode(dyn:py.Compile#0, recv.Module.Globals, recv.Module.Globals, nil); TracebackDump(err!) -> nil",
+		"[!(recv.continuation) && !(strings.Contains((.error).Error#0, \"unexpected EOF while parsing\")) && !(strings.Contains((.error).Error#0, lit)) && err != nil && toCompile != \"\"] vm.PrintExpr = recv.term.Print; defer(func() { vm.PrintExpr = oldPrintExpr }()); Compile(toCompile + \"\\n\", recv.prog, py.SingleMode, 0, true); recv.continuation = false; recv.term.SetPrompt(NormalPrompt); recv.previous = \"\"; recv.term.Print(fmt.Sprintf#0) -> nil",
+		"[!(recv.continuation) && !(strings.Contains((.error).Error#0, \"unexpected EOF while parsing\")) && err != nil && len(strings.TrimSpace#0) != 0 && strings.Contains((.error).Error#0, lit) && strings.TrimSpace#0[0] != 35 && toCompile != \"\"] vm.PrintExpr = recv.term.Print; defer(func() { vm.PrintExpr = oldPrintExpr }()); Compile(toCompile + \"\\n\", recv.prog, py.SingleMode, 0, true); recv.continuation = true; r.previous += string(p1) + \"\\n\"; recv.term.SetPrompt(ContinuationPrompt) -> nil",
+		"[!(recv.continuation) && !(strings.Contains((.error).Error#0, \"unexpected EOF while parsing\")) && err != nil && len(strings.TrimSpace#0) != 0 && strings.Contains((.error).Error#0, lit) && strings.TrimSpace#0[0] == 35 && toCompile != \"\"] vm.PrintExpr = recv.term.Print; defer(func() { vm.PrintExpr = oldPrintExpr }()); Compile(toCompile + \"\\n\", recv.prog, py.SingleMode, 0, true) -> nil",
+		"[!(recv.continuation) && !(strings.Contains((.error).Error#0, \"unexpected EOF while parsing\")) && err != nil && len(strings.TrimSpace#0) == 0 && strings.Contains((.error).Error#0, lit) && toCompile != \"\"] vm.PrintExpr = recv.term.Print; defer(func() { vm.PrintExpr = oldPrintExpr }()); Compile(toCompile + \"\\n\", recv.prog, py.SingleMode, 0, true); recv.continuation = true; r.previous += string(p1) + \"\\n\"; recv.term.SetPrompt(ContinuationPrompt) -> nil",
+		"[!(recv.continuation) && err != nil && len(strings.TrimSpace#0) != 0 && strings.Contains((.error).Error#0, \"unexpected EOF while parsing\") && strings.TrimSpace#0[0] != 35 && toCompile != \"\"] vm.PrintExpr = recv.term.Print; defer(func() { vm.PrintExpr = oldPrintExpr }()); Compile(toCompile + \"\\n\", recv.prog, py.SingleMode, 0, true); recv.continuation = true; r.previous += string(p1) + \"\\n\"; recv.term.SetPrompt(ContinuationPrompt) -> nil",
+		"[!(recv.continuation) && err != nil && len(strings.TrimSpace#0) != 0 && strings.Contains((.error).Error#0, \"unexpected EOF while parsing\") && strings.TrimSpace#0[0] == 35 && toCompile != \"\"] vm.PrintExpr = recv.term.Print; defer(func() { vm.PrintExpr = oldPrintExpr }()); Compile(toCompile + \"\\n\", recv.prog, py.SingleMode, 0, true) -> nil",
+		"[!(recv.continuation) && err != nil && len(strings.TrimSpace#0) == 0 && strings.Contains((.error).Error#0, \"unexpected EOF while parsing\") && toCompile != \"\"] vm.PrintExpr = recv.term.Print; defer(func() { vm.PrintExpr = oldPrintExpr }()); Compile(toCompile + \"\\n\", recv.prog, py.SingleMode, 0, true); recv.continuation = true; r.previous += string(p1) + \"\\n\"; recv.term.SetPrompt(ContinuationPrompt) -> nil",
+		"[!(recv.continuation) && err == nil && py.IsException(py.SystemExit, err!) && toCompile != \"\"] vm.PrintExpr = recv.term.Print; defer(func() { vm.PrintExpr = oldPrintExpr }()); Compile(toCompile + \"\\n\", recv.prog, py.SingleMode, 0, true); recv.continuation = false; recv.term.SetPrompt(NormalPrompt); recv.previous = \"\"; recv.Context.RunCode(dyn:py.Compile#0, recv.Module.Globals, recv.Module.Globals, nil) -> err!",
+		"[!(recv.continuation) && err == nil && toCompile != \"\"] vm.PrintExpr = recv.term.Print; defer(func() { vm.PrintExpr = oldPrintExpr }()); Compile(toCompile + \"\\n\", recv.prog, py.SingleMode, 0, true); recv.continuation = false; recv.term.SetPrompt(NormalPrompt); recv.previous = \"\"; recv.Context.RunCode(dyn:py.Compile#0, recv.Module.Globals, recv.Module.Globals, nil) -> nil",
+		"[!(recv.continuation) && toCompile == \"\"] vm.PrintExpr = recv.term.Print; defer(func() { vm.PrintExpr = oldPrintExpr }()) -> nil",
+		"[!(strings.Contains((.error).Error#0, \"unexpected EOF while parsing\")) && !(strings.Contains((.error).Error#0, lit)) && err != nil && p1 == \"\" && recv.continuation && toCompile != \"\"] vm.PrintExpr = recv.term.Print; defer(func() { vm.PrintExpr = oldPrintExpr }()); Compile(toCompile + \"\\n\", recv.prog, py.SingleMode, 0, true); recv.continuation = false; recv.term.SetPrompt(NormalPrompt); recv.previous = \"\"; recv.term.Print(fmt.Sprintf#0) -> nil",
+		"[!(strings.Contains((.error).Error#0, \"unexpected EOF while parsing\")) && err != nil && len(strings.TrimSpace#0) != 0 && p1 == \"\" && recv.continuation && strings.Contains((.error).Error#0, lit) && strings.TrimSpace#0[0] != 35 && toCompile != \"\"] vm.PrintExpr = recv.term.Print; defer(func() { vm.PrintExpr = oldPrintExpr }()); Compile(toCompile + \"\\n\", recv.prog, py.SingleMode, 0, true); recv.continuation = true; r.previous += string(p1) + \"\\n\"; recv.term.SetPrompt(ContinuationPrompt) -> nil",
+		"[!(strings.Contains((.error).Error#0, \"unexpected EOF while parsing\")) && err != nil && len(strings.TrimSpace#0) != 0 && p1 == \"\" && recv.continuation && strings.Contains((.error).Error#0, lit) && strings.TrimSpace#0[0] == 35 && toCompile != \"\"] vm.PrintExpr = recv.term.Print; defer(func() { vm.PrintExpr = oldPrintExpr }()); Compile(toCompile + \"\\n\", recv.prog, py.SingleMode, 0, true) -> nil",
+		"[!(strings.Contains((.error).Error#0, \"unexpected EOF while parsing\")) && err != nil && len(strings.TrimSpace#0) == 0 && p1 == \"\" && recv.continuation && strings.Contains((.error).Error#0, lit) && toCompile != \"\"] vm.PrintExpr = recv.term.Print; defer(func() { vm.PrintExpr = oldPrintExpr }()); Compile(toCompile + \"\\n\", recv.prog, py.SingleMode, 0, true); recv.continuation = true; r.previous += string(p1) + \"\\n\"; recv.term.SetPrompt(ContinuationPrompt) -> nil",
+		"[err != nil && len(strings.TrimSpace#0) != 0 && p1 == \"\" && recv.continuation && strings.Contains((.error).Error#0, \"unexpected EOF while parsing\") && strings.TrimSpace#0[0] != 35 && toCompile != \"\"] vm.PrintExpr = recv.term.Print; defer(func() { vm.PrintExpr = oldPrintExpr }()); Compile(toCompile + \"\\n\", recv.prog, py.SingleMode, 0, true); recv.continuation = true; r.previous += string(p1) + \"\\n\"; recv.term.SetPrompt(ContinuationPrompt) -> nil",
+		"[err != nil && len(strings.TrimSpace#0) != 0 && p1 == \"\" && recv.continuation && strings.Contains((.error).Error#0, \"unexpected EOF while parsing\") && strings.TrimSpace#0[0] == 35 && toCompile != \"\"] vm.PrintExpr = recv.term.Print; defer(func() { vm.PrintExpr = oldPrintExpr }()); Compile(toCompile + \"\\n\", recv.prog, py.SingleMode, 0, true) -> nil",
+		"[err != nil && len(strings.TrimSpace#0) == 0 && p1 == \"\" && recv.continuation && strings.Contains((.error).Error#0, \"unexpected EOF while parsing\") && toCompile != \"\"] vm.PrintExpr = recv.term.Print; defer(func() { vm.PrintExpr = oldPrintExpr }()); Compile(toCompile + \"\\n\", recv.prog, py.SingleMode, 0, true); recv.continuation = true; r.previous += string(p1) + \"\\n\"; recv.term.SetPrompt(ContinuationPrompt) -> nil",
+		"[err == nil && p1 == \"\" && py.IsException(py.SystemExit, err!) && recv.continuation && toCompile != \"\"] vm.PrintExpr = recv.term.Print; defer(func() { vm.PrintExpr = oldPrintExpr }()); Compile(toCompile + \"\\n\", recv.prog, py.SingleMode, 0, true); recv.continuation = false; recv.term.SetPrompt(NormalPrompt); recv.previous = \"\"; recv.Context.RunCode(dyn:py.Compile#0, recv.Module.Globals, recv.Module.Globals, nil) -> err!",
+		"[err == nil && p1 == \"\" && recv.continuation && toCompile != \"\"] vm.PrintExpr = recv.term.Print; defer(func() { vm.PrintExpr = oldPrintExpr }()); Compile(toCompile + \"\\n\", recv.prog, py.SingleMode, 0, true); recv.continuation = false; recv.term.SetPrompt(NormalPrompt); recv.previous = \"\"; recv.Context.RunCode(dyn:py.Compile#0, recv.Module.Globals, recv.Module.Globals, nil) -> nil",
+		"[p1 != \"\" && recv.continuation] vm.PrintExpr = recv.term.Print; defer(func() { vm.PrintExpr = oldPrintExpr }()); r.previous += string(p1) + \"\\n\" -> nil",
+		"[p1 == \"\" && recv.continuation && toCompile == \"\"] vm.PrintExpr = recv.term.Print; defer(func() { vm.PrintExpr = oldPrintExpr }()) -> nil",
 	}
 	// block analysis order: for a class block the sets handed to children are copied from bound/global BEFORE the block's own names are analysed (class bindings, including a `global` in the class body, are not visible in methods); for other blocks after; children are analysed on those sets; cells computed for function blocks, __class__ dropped for class blocks; symbols updated; free propagated [symtable.c analyze_block]  []
 	pathSpec["symtable|SymTable.AnalyzeBlock"] = []string{
-		"[st.Type != ClassBlock && st.Type != FunctionBlock] LOOP(range recv.Symbols){[] st.AnalyzeName(make#2, idx(st.Symbols), st.Symbols[*], p1, make#1, p2, p3) }; make#5.Update(p1); make#3.Update(p3); LOOP(range recv.Children){[!(entry.ChildFree) && !(entry.Free)] st.Children[*].AnalyzeChildBlock(make#5, make#4, make#3, make#6)  | [!(entry.Free) && entry.ChildFree] st.Children[*].AnalyzeChildBlock(make#5, make#4, make#3, make#6)  | [entry.Free] st.Children[*].AnalyzeChildBlock(make#5, make#4, make#3, make#6) }; make#4.Update(make#6); st.Symbols.Update(make#2, p1, make#4, recv.Type == ClassBlock); p2.Update(make#4)",
-		"[st.Type == ClassBlock] make#3.Update(p3); make#5.Update(p1); LOOP(range recv.Symbols){[] st.AnalyzeName(make#2, idx(st.Symbols), st.Symbols[*], p1, make#1, p2, p3) }; make#5.Add(\"__class__\"); LOOP(range recv.Children){[!(entry.ChildFree) && !(entry.Free)] st.Children[*].AnalyzeChildBlock(make#5, make#4, make#3, make#6)  | [!(entry.Free) && entry.ChildFree] st.Children[*].AnalyzeChildBlock(make#5, make#4, make#3, make#6)  | [entry.Free] st.Children[*].AnalyzeChildBlock(make#5, make#4, make#3, make#6) }; make#4.Update(make#6); st.DropClassFree(make#4); st.Symbols.Update(make#2, p1, make#4, recv.Type == ClassBlock); p2.Update(make#4)",
-		"[st.Type == FunctionBlock] LOOP(range recv.Symbols){[] st.AnalyzeName(make#2, idx(st.Symbols), st.Symbols[*], p1, make#1, p2, p3) }; make#5.Update(make#1); make#5.Update(p1); make#3.Update(p3); LOOP(range recv.Children){[!(entry.ChildFree) && !(entry.Free)] st.Children[*].AnalyzeChildBlock(make#5, make#4, make#3, make#6)  | [!(entry.Free) && entry.ChildFree] st.Children[*].AnalyzeChildBlock(make#5, make#4, make#3, make#6)  | [entry.Free] st.Children[*].AnalyzeChildBlock(make#5, make#4, make#3, make#6) }; make#4.Update(make#6); AnalyzeCells(make#2, make#4); st.Symbols.Update(make#2, p1, make#4, recv.Type == ClassBlock); p2.Update(make#4)",
+		"[recv.Type != ClassBlock && recv.Type != FunctionBlock] LOOP(range recv.Symbols){[] recv.AnalyzeName(make#2, idx(recv.Symbols), recv.Symbols[*], p1, make#1, p2, p3) }; make#5.Update(p1); make#3.Update(p3); LOOP(range recv.Children){[!(entry.ChildFree) && !(entry.Free)] recv.Children[*].AnalyzeChildBlock(make#5, make#4, make#3, make#6)  | [!(entry.Free) && entry.ChildFree] recv.Children[*].AnalyzeChildBlock(make#5, make#4, make#3, make#6)  | [entry.Free] recv.Children[*].AnalyzeChildBlock(make#5, make#4, make#3, make#6) }; make#4.Update(make#6); recv.Symbols.Update(make#2, p1, make#4, recv.Type == ClassBlock); p2.Update(make#4)",
+		"[recv.Type == ClassBlock] make#3.Update(p3); make#5.Update(p1); LOOP(range recv.Symbols){[] recv.AnalyzeName(make#2, idx(recv.Symbols), recv.Symbols[*], p1, make#1, p2, p3) }; make#5.Add(\"__class__\"); LOOP(range recv.Children){[!(entry.ChildFree) && !(entry.Free)] recv.Children[*].AnalyzeChildBlock(make#5, make#4, make#3, make#6)  | [!(entry.Free) && entry.ChildFree] recv.Children[*].AnalyzeChildBlock(make#5, make#4, make#3, make#6)  | [entry.Free] recv.Children[*].AnalyzeChildBlock(make#5, make#4, make#3, make#6) }; make#4.Update(make#6); recv.DropClassFree(make#4); recv.Symbols.Update(make#2, p1, make#4, recv.Type == ClassBlock); p2.Update(make#4)",
+		"[recv.Type == FunctionBlock] LOOP(range recv.Symbols){[] recv.AnalyzeName(make#2, idx(recv.Symbols), recv.Symbols[*], p1, make#1, p2, p3) }; make#5.Update(make#1); make#5.Update(p1); make#3.Update(p3); LOOP(range recv.Children){[!(entry.ChildFree) && !(entry.Free)] recv.Children[*].AnalyzeChildBlock(make#5, make#4, make#3, make#6)  | [!(entry.Free) && entry.ChildFree] recv.Children[*].AnalyzeChildBlock(make#5, make#4, make#3, make#6)  | [entry.Free] recv.Children[*].AnalyzeChildBlock(make#5, make#4, make#3, make#6) }; make#4.Update(make#6); AnalyzeCells(make#2, make#4); recv.Symbols.Update(make#2, p1, make#4, recv.Type == ClassBlock); p2.Update(make#4)",
 	}
 	// sequence unpacking (UNPACK_SEQUENCE / UNPACK_EX): the first argcnt items are stored downwards from the top so that the leftmost target is popped first; the starred list takes the rest; the after-star items are taken from the end of that list in the same downward order [ceval.c unpack_iterable]  []
 	pathSpec["vm|unpack_iterable"] = []string{
@@ -89,27 +89,27 @@ func init() {
 	}
 	// the implicit `return None` is omitted only when the very last element of the instruction stream is a RETURN_VALUE: a trailing label is a jump target that needs an instruction after it  []
 	pathSpec["compile|Instructions.EndsWithReturn"] = []string{
-		"[!(recv[len(recv) - 1].(*Op)) && len(is) != 0]  -> false",
-		"[is[len(is) - 1].Op != vm.RETURN_VALUE && len(is) != 0 && recv[len(recv) - 1].(*Op)]  -> false",
-		"[is[len(is) - 1].Op == vm.RETURN_VALUE && len(is) != 0 && recv[len(recv) - 1].(*Op)]  -> true",
-		"[len(is) == 0]  -> false",
+		"[!(recv[len(recv) - 1].(*Op)) && len(recv) != 0]  -> false",
+		"[len(recv) != 0 && recv[len(recv) - 1].(*Op) && recv[len(recv) - 1].Op != vm.RETURN_VALUE]  -> false",
+		"[len(recv) != 0 && recv[len(recv) - 1].(*Op) && recv[len(recv) - 1].Op == vm.RETURN_VALUE]  -> true",
+		"[len(recv) == 0]  -> false",
 	}
 	// incomplete-input decision (lexer half): a parse error without a message of its own is reported as 'unexpected EOF while parsing' exactly when the input ran out (x.eof), otherwise as 'invalid syntax' — the REPL continues a statement on the former  []
 	pathSpec["parser|yyLex.ErrorReturn"] = []string{
-		"[!(recv.eof) && recv.error && recv.errorString == \"\"] recv.errorString = \"invalid syntax\"; ExceptionNewf(py.SyntaxError, \"%s\", x.errorString) -> err!",
+		"[!(recv.eof) && recv.error && recv.errorString == \"\"] recv.errorString = \"invalid syntax\"; ExceptionNewf(py.SyntaxError, \"%s\", recv.errorString) -> err!",
 		"[!(recv.error)]  -> nil",
-		"[recv.eof && recv.error && recv.errorString == \"\"] recv.errorString = \"unexpected EOF while parsing\"; ExceptionNewf(py.SyntaxError, \"%s\", x.errorString) -> err!",
-		"[recv.error && recv.errorString != \"\"] ExceptionNewf(py.SyntaxError, \"%s\", x.errorString) -> err!",
+		"[recv.eof && recv.error && recv.errorString == \"\"] recv.errorString = \"unexpected EOF while parsing\"; ExceptionNewf(py.SyntaxError, \"%s\", recv.errorString) -> err!",
+		"[recv.error && recv.errorString != \"\"] ExceptionNewf(py.SyntaxError, \"%s\", recv.errorString) -> err!",
 	}
 	// range equality compares the sequences the ranges denote: different lengths differ; empty ranges are equal; then the first items must agree; a range of one item needs nothing more; otherwise the steps must agree [rangeobject.c range_equals]  []
 	pathSpec["py|Range.M__eq__"] = []string{
 		"[!(p1.(*Range))]  -> NotImplemented, nil",
-		"[a.Length != 0 && a.Length != 1 && a.Length - p1.Length == 0 && a.Start - p1.Start == 0 && a.Step - p1.Step != 0 && p1.(*Range)]  -> False, nil",
-		"[a.Length != 0 && a.Length != 1 && a.Length - p1.Length == 0 && a.Start - p1.Start == 0 && a.Step - p1.Step == 0 && p1.(*Range)]  -> True, nil",
-		"[a.Length != 0 && a.Length - p1.Length == 0 && a.Start - p1.Start != 0 && p1.(*Range)]  -> False, nil",
-		"[a.Length - p1.Length != 0 && p1.(*Range)]  -> False, nil",
-		"[a.Length - p1.Length == 0 && a.Length == 0 && p1.(*Range)]  -> True, nil",
-		"[a.Length - p1.Length == 0 && a.Length == 1 && a.Start - p1.Start == 0 && p1.(*Range)]  -> True, nil",
+		"[p1.(*Range) && p1.Length - recv.Length != 0]  -> False, nil",
+		"[p1.(*Range) && p1.Length - recv.Length == 0 && p1.Start - recv.Start != 0 && recv.Length != 0]  -> False, nil",
+		"[p1.(*Range) && p1.Length - recv.Length == 0 && p1.Start - recv.Start == 0 && p1.Step - recv.Step != 0 && recv.Length != 0 && recv.Length != 1]  -> False, nil",
+		"[p1.(*Range) && p1.Length - recv.Length == 0 && p1.Start - recv.Start == 0 && p1.Step - recv.Step == 0 && recv.Length != 0 && recv.Length != 1]  -> True, nil",
+		"[p1.(*Range) && p1.Length - recv.Length == 0 && p1.Start - recv.Start == 0 && recv.Length == 1]  -> True, nil",
+		"[p1.(*Range) && p1.Length - recv.Length == 0 && recv.Length == 0]  -> True, nil",
 	}
 	// name lookup in a namespace block: locals, then globals, then builtins, NameError last [ceval.c]  []
 	pathSpec["vm|do_LOAD_NAME"] = []string{
@@ -196,51 +196,51 @@ func init() {
 		"[err != nil && p1.(*Slice)] p1.GetIndices(len(recv.Items)) -> nil, err!",
 		"[err == nil && len(py.SequenceTuple#0) - ret#3:slice.GetIndices(len(recv.Items)) != 0 && p1.(*Slice) && ret#2:slice.GetIndices(len(recv.Items)) != 1] p1.GetIndices(len(recv.Items)); SequenceTuple(p2); ExceptionNewf(ValueError, lit, len(py.SequenceTuple#0), ret#3:slice.GetIndices(len(recv.Items))) -> nil, err!",
 		"[err == nil && len(py.SequenceTuple#0) - ret#3:slice.GetIndices(len(recv.Items)) == 0 && p1.(*Slice) && ret#2:slice.GetIndices(len(recv.Items)) != 1] p1.GetIndices(len(recv.Items)); SequenceTuple(p2); LOOP(for i, j := start, 0; j < slicelength; i, j = i+step, j+1){[]  } -> None, nil",
-		"[err == nil && p1.(*Slice) && ret#0:slice.GetIndices(len(recv.Items)) - ret#1:slice.GetIndices(len(recv.Items)) <= 0 && ret#2:slice.GetIndices(len(recv.Items)) == 1] p1.GetIndices(len(recv.Items)); SequenceTuple(p2); recv.Items = append(recv.Items[:start], py.SequenceTuple#0); recv.Items = append(l.Items, copy-of[recv.Items[stop:]]) -> None, nil",
-		"[err == nil && p1.(*Slice) && ret#0:slice.GetIndices(len(recv.Items)) - ret#1:slice.GetIndices(len(recv.Items)) >= 1 && ret#2:slice.GetIndices(len(recv.Items)) == 1] p1.GetIndices(len(recv.Items)); SequenceTuple(p2); recv.Items = append(recv.Items[:start], py.SequenceTuple#0); recv.Items = append(l.Items, copy-of[recv.Items[stop:]]) -> None, nil",
+		"[err == nil && p1.(*Slice) && ret#0:slice.GetIndices(len(recv.Items)) - ret#1:slice.GetIndices(len(recv.Items)) <= 0 && ret#2:slice.GetIndices(len(recv.Items)) == 1] p1.GetIndices(len(recv.Items)); SequenceTuple(p2); recv.Items = append(recv.Items[:start], py.SequenceTuple#0); recv.Items = append(recv.Items, copy-of[recv.Items[stop:]]) -> None, nil",
+		"[err == nil && p1.(*Slice) && ret#0:slice.GetIndices(len(recv.Items)) - ret#1:slice.GetIndices(len(recv.Items)) >= 1 && ret#2:slice.GetIndices(len(recv.Items)) == 1] p1.GetIndices(len(recv.Items)); SequenceTuple(p2); recv.Items = append(recv.Items[:start], py.SequenceTuple#0); recv.Items = append(recv.Items, copy-of[recv.Items[stop:]]) -> None, nil",
 		"[err == nil && p1.(*Slice)] p1.GetIndices(len(recv.Items)); SequenceTuple(p2) -> nil, err!",
 	}
 	// list item and slice deletion: simple slices clamp stop to start and splice; extended slices delete slicelength items in ascending order, starting for a negative step from start+step*(slicelength-1) [listobject.c list_ass_subscript]  []
 	pathSpec["py|List.M__delitem__"] = []string{
 		"[!(p1.(*Slice)) && err != nil] IndexIntCheck(p1, len(recv.Items)) -> nil, err!",
-		"[!(p1.(*Slice)) && err == nil] IndexIntCheck(p1, len(recv.Items)); a.DelItem(ret#0:IndexIntCheck(p1, len(recv.Items))) -> None, nil",
+		"[!(p1.(*Slice)) && err == nil] IndexIntCheck(p1, len(recv.Items)); recv.DelItem(ret#0:IndexIntCheck(p1, len(recv.Items))) -> None, nil",
 		"[err != nil && p1.(*Slice)] p1.GetIndices(len(recv.Items)) -> nil, err!",
 		"[err == nil && p1.(*Slice) && ret#0:slice.GetIndices(len(recv.Items)) - ret#1:slice.GetIndices(len(recv.Items)) <= 0 && ret#2:slice.GetIndices(len(recv.Items)) == 1] p1.GetIndices(len(recv.Items)); recv.Items = append(recv.Items[:start], recv.Items[stop:]) -> None, nil",
 		"[err == nil && p1.(*Slice) && ret#0:slice.GetIndices(len(recv.Items)) - ret#1:slice.GetIndices(len(recv.Items)) >= 1 && ret#2:slice.GetIndices(len(recv.Items)) == 1] p1.GetIndices(len(recv.Items)); recv.Items = append(recv.Items[:start], recv.Items[stop:]) -> None, nil",
-		"[err == nil && p1.(*Slice) && ret#2:slice.GetIndices(len(recv.Items)) != 1 && ret#2:slice.GetIndices(len(recv.Items)) <= -1] p1.GetIndices(len(recv.Items)); LOOP(for k1 = 0; k1 < slicelength; k1++){[] a.DelItem(start + k1 * step - k1) } -> None, nil",
-		"[err == nil && p1.(*Slice) && ret#2:slice.GetIndices(len(recv.Items)) != 1 && ret#2:slice.GetIndices(len(recv.Items)) >= 0] p1.GetIndices(len(recv.Items)); LOOP(for k1 = 0; k1 < slicelength; k1++){[] a.DelItem(start + k1 * step - k1) } -> None, nil",
+		"[err == nil && p1.(*Slice) && ret#2:slice.GetIndices(len(recv.Items)) != 1 && ret#2:slice.GetIndices(len(recv.Items)) <= -1] p1.GetIndices(len(recv.Items)); LOOP(for k1 = 0; k1 < slicelength; k1++){[] recv.DelItem(start + k1 * step - k1) } -> None, nil",
+		"[err == nil && p1.(*Slice) && ret#2:slice.GetIndices(len(recv.Items)) != 1 && ret#2:slice.GetIndices(len(recv.Items)) >= 0] p1.GetIndices(len(recv.Items)); LOOP(for k1 = 0; k1 < slicelength; k1++){[] recv.DelItem(start + k1 * step - k1) } -> None, nil",
 	}
 	// in-place set operators adopt the result of the binary operator unconditionally and evaluate to the receiver  []
 	pathSpec["py|Set.inPlace"] = []string{
 		"[!(p1.(*Set)) && p2 == nil]  -> p1, nil",
-		"[p1.(*Set) && p2 == nil] recv.items = p1.items -> s, nil",
+		"[p1.(*Set) && p2 == nil] recv.items = p1.items -> recv, nil",
 		"[p2 != nil]  -> nil, err!",
 	}
 	// sort comparison: items fetched, key function applied to both, then a strict less-than with the operands exchanged for reverse (not the result inverted, which is not a strict order and breaks stability)  []
 	pathSpec["py|ptrSortable.Less"] = []string{
-		"[!(cmpResult.(Bool)) && !(recv.recv.reverse) && err == nil && recv.recv.keyFunc != None] s.s.l.M__getitem__(p1); s.s.l.M__getitem__(p2); Call(s.s.keyFunc, composite[(*py.List).M__getitem__#0], nil); Call(s.s.keyFunc, composite[(*py.List).M__getitem__#0'2], nil); Lt(py.Call#0, py.Call#0'2) -> false",
-		"[!(cmpResult.(Bool)) && !(recv.recv.reverse) && err == nil && recv.recv.keyFunc == None] s.s.l.M__getitem__(p1); s.s.l.M__getitem__(p2); Lt((*py.List).M__getitem__#0, (*py.List).M__getitem__#0'2) -> false",
-		"[!(cmpResult.(Bool)) && err == nil && recv.recv.keyFunc != None && recv.recv.reverse] s.s.l.M__getitem__(p1); s.s.l.M__getitem__(p2); Call(s.s.keyFunc, composite[(*py.List).M__getitem__#0], nil); Call(s.s.keyFunc, composite[(*py.List).M__getitem__#0'2], nil); Lt(py.Call#0'2, py.Call#0) -> false",
-		"[!(cmpResult.(Bool)) && err == nil && recv.recv.keyFunc == None && recv.recv.reverse] s.s.l.M__getitem__(p1); s.s.l.M__getitem__(p2); Lt((*py.List).M__getitem__#0'2, (*py.List).M__getitem__#0) -> false",
-		"[!(recv.recv.reverse) && cmpResult.(Bool) && err == nil && recv.recv.keyFunc != None] s.s.l.M__getitem__(p1); s.s.l.M__getitem__(p2); Call(s.s.keyFunc, composite[(*py.List).M__getitem__#0], nil); Call(s.s.keyFunc, composite[(*py.List).M__getitem__#0'2], nil); Lt(py.Call#0, py.Call#0'2) -> py.Lt#0",
-		"[!(recv.recv.reverse) && cmpResult.(Bool) && err == nil && recv.recv.keyFunc == None] s.s.l.M__getitem__(p1); s.s.l.M__getitem__(p2); Lt((*py.List).M__getitem__#0, (*py.List).M__getitem__#0'2) -> py.Lt#0",
-		"[!(recv.recv.reverse) && err == nil && recv.recv.firstErr != nil && recv.recv.keyFunc != None] s.s.l.M__getitem__(p1); s.s.l.M__getitem__(p2); Call(s.s.keyFunc, composite[(*py.List).M__getitem__#0], nil); Call(s.s.keyFunc, composite[(*py.List).M__getitem__#0'2], nil); Lt(py.Call#0, py.Call#0'2) -> false",
-		"[!(recv.recv.reverse) && err == nil && recv.recv.firstErr != nil && recv.recv.keyFunc == None] s.s.l.M__getitem__(p1); s.s.l.M__getitem__(p2); Lt((*py.List).M__getitem__#0, (*py.List).M__getitem__#0'2) -> false",
-		"[!(recv.recv.reverse) && err == nil && recv.recv.firstErr == nil && recv.recv.keyFunc != None] s.s.l.M__getitem__(p1); s.s.l.M__getitem__(p2); Call(s.s.keyFunc, composite[(*py.List).M__getitem__#0], nil); Call(s.s.keyFunc, composite[(*py.List).M__getitem__#0'2], nil); Lt(py.Call#0, py.Call#0'2); recv.recv.firstErr = err! -> false",
-		"[!(recv.recv.reverse) && err == nil && recv.recv.firstErr == nil && recv.recv.keyFunc == None] s.s.l.M__getitem__(p1); s.s.l.M__getitem__(p2); Lt((*py.List).M__getitem__#0, (*py.List).M__getitem__#0'2); recv.recv.firstErr = err! -> false",
-		"[cmpResult.(Bool) && err == nil && recv.recv.keyFunc != None && recv.recv.reverse] s.s.l.M__getitem__(p1); s.s.l.M__getitem__(p2); Call(s.s.keyFunc, composite[(*py.List).M__getitem__#0], nil); Call(s.s.keyFunc, composite[(*py.List).M__getitem__#0'2], nil); Lt(py.Call#0'2, py.Call#0) -> py.Lt#0",
-		"[cmpResult.(Bool) && err == nil && recv.recv.keyFunc == None && recv.recv.reverse] s.s.l.M__getitem__(p1); s.s.l.M__getitem__(p2); Lt((*py.List).M__getitem__#0'2, (*py.List).M__getitem__#0) -> py.Lt#0",
-		"[err != nil && recv.recv.firstErr != nil] s.s.l.M__getitem__(p1) -> false",
-		"[err != nil && recv.recv.firstErr == nil] s.s.l.M__getitem__(p1); recv.recv.firstErr = err! -> false",
-		"[err == nil && recv.recv.firstErr != nil && recv.recv.keyFunc != None && recv.recv.reverse] s.s.l.M__getitem__(p1); s.s.l.M__getitem__(p2); Call(s.s.keyFunc, composite[(*py.List).M__getitem__#0], nil); Call(s.s.keyFunc, composite[(*py.List).M__getitem__#0'2], nil); Lt(py.Call#0'2, py.Call#0) -> false",
-		"[err == nil && recv.recv.firstErr != nil && recv.recv.keyFunc != None] s.s.l.M__getitem__(p1); s.s.l.M__getitem__(p2); Call(s.s.keyFunc, composite[(*py.List).M__getitem__#0], nil) -> false",
-		"[err == nil && recv.recv.firstErr != nil && recv.recv.keyFunc != None] s.s.l.M__getitem__(p1); s.s.l.M__getitem__(p2); Call(s.s.keyFunc, composite[(*py.List).M__getitem__#0], nil); Call(s.s.keyFunc, composite[(*py.List).M__getitem__#0'2], nil) -> false",
-		"[err == nil && recv.recv.firstErr != nil && recv.recv.keyFunc == None && recv.recv.reverse] s.s.l.M__getitem__(p1); s.s.l.M__getitem__(p2); Lt((*py.List).M__getitem__#0'2, (*py.List).M__getitem__#0) -> false",
-		"[err == nil && recv.recv.firstErr != nil] s.s.l.M__getitem__(p1); s.s.l.M__getitem__(p2) -> false",
-		"[err == nil && recv.recv.firstErr == nil && recv.recv.keyFunc != None && recv.recv.reverse] s.s.l.M__getitem__(p1); s.s.l.M__getitem__(p2); Call(s.s.keyFunc, composite[(*py.List).M__getitem__#0], nil); Call(s.s.keyFunc, composite[(*py.List).M__getitem__#0'2], nil); Lt(py.Call#0'2, py.Call#0); recv.recv.firstErr = err! -> false",
-		"[err == nil && recv.recv.firstErr == nil && recv.recv.keyFunc != None] s.s.l.M__getitem__(p1); s.s.l.M__getitem__(p2); Call(s.s.keyFunc, composite[(*py.List).M__getitem__#0], nil); Call(s.s.keyFunc, composite[(*py.List).M__getitem__#0'2], nil); recv.recv.firstErr = err! -> false",
-		"[err == nil && recv.recv.firstErr == nil && recv.recv.keyFunc != None] s.s.l.M__getitem__(p1); s.s.l.M__getitem__(p2); Call(s.s.keyFunc, composite[(*py.List).M__getitem__#0], nil); recv.recv.firstErr = err! -> false",
-		"[err == nil && recv.recv.firstErr == nil && recv.recv.keyFunc == None && recv.recv.reverse] s.s.l.M__getitem__(p1); s.s.l.M__getitem__(p2); Lt((*py.List).M__getitem__#0'2, (*py.List).M__getitem__#0); recv.recv.firstErr = err! -> false",
-		"[err == nil && recv.recv.firstErr == nil] s.s.l.M__getitem__(p1); s.s.l.M__getitem__(p2); recv.recv.firstErr = err! -> false",
+		"[!(cmpResult.(Bool)) && !(recv.recv.reverse) && err == nil && recv.recv.keyFunc != None] recv.s.l.M__getitem__(p1); recv.s.l.M__getitem__(p2); Call(recv.s.keyFunc, composite[(*py.List).M__getitem__#0], nil); Call(recv.s.keyFunc, composite[(*py.List).M__getitem__#0'2], nil); Lt(py.Call#0, py.Call#0'2) -> false",
+		"[!(cmpResult.(Bool)) && !(recv.recv.reverse) && err == nil && recv.recv.keyFunc == None] recv.s.l.M__getitem__(p1); recv.s.l.M__getitem__(p2); Lt((*py.List).M__getitem__#0, (*py.List).M__getitem__#0'2) -> false",
+		"[!(cmpResult.(Bool)) && err == nil && recv.recv.keyFunc != None && recv.recv.reverse] recv.s.l.M__getitem__(p1); recv.s.l.M__getitem__(p2); Call(recv.s.keyFunc, composite[(*py.List).M__getitem__#0], nil); Call(recv.s.keyFunc, composite[(*py.List).M__getitem__#0'2], nil); Lt(py.Call#0'2, py.Call#0) -> false",
+		"[!(cmpResult.(Bool)) && err == nil && recv.recv.keyFunc == None && recv.recv.reverse] recv.s.l.M__getitem__(p1); recv.s.l.M__getitem__(p2); Lt((*py.List).M__getitem__#0'2, (*py.List).M__getitem__#0) -> false",
+		"[!(recv.recv.reverse) && cmpResult.(Bool) && err == nil && recv.recv.keyFunc != None] recv.s.l.M__getitem__(p1); recv.s.l.M__getitem__(p2); Call(recv.s.keyFunc, composite[(*py.List).M__getitem__#0], nil); Call(recv.s.keyFunc, composite[(*py.List).M__getitem__#0'2], nil); Lt(py.Call#0, py.Call#0'2) -> py.Lt#0",
+		"[!(recv.recv.reverse) && cmpResult.(Bool) && err == nil && recv.recv.keyFunc == None] recv.s.l.M__getitem__(p1); recv.s.l.M__getitem__(p2); Lt((*py.List).M__getitem__#0, (*py.List).M__getitem__#0'2) -> py.Lt#0",
+		"[!(recv.recv.reverse) && err == nil && recv.recv.firstErr != nil && recv.recv.keyFunc != None] recv.s.l.M__getitem__(p1); recv.s.l.M__getitem__(p2); Call(recv.s.keyFunc, composite[(*py.List).M__getitem__#0], nil); Call(recv.s.keyFunc, composite[(*py.List).M__getitem__#0'2], nil); Lt(py.Call#0, py.Call#0'2) -> false",
+		"[!(recv.recv.reverse) && err == nil && recv.recv.firstErr != nil && recv.recv.keyFunc == None] recv.s.l.M__getitem__(p1); recv.s.l.M__getitem__(p2); Lt((*py.List).M__getitem__#0, (*py.List).M__getitem__#0'2) -> false",
+		"[!(recv.recv.reverse) && err == nil && recv.recv.firstErr == nil && recv.recv.keyFunc != None] recv.s.l.M__getitem__(p1); recv.s.l.M__getitem__(p2); Call(recv.s.keyFunc, composite[(*py.List).M__getitem__#0], nil); Call(recv.s.keyFunc, composite[(*py.List).M__getitem__#0'2], nil); Lt(py.Call#0, py.Call#0'2); recv.recv.firstErr = err! -> false",
+		"[!(recv.recv.reverse) && err == nil && recv.recv.firstErr == nil && recv.recv.keyFunc == None] recv.s.l.M__getitem__(p1); recv.s.l.M__getitem__(p2); Lt((*py.List).M__getitem__#0, (*py.List).M__getitem__#0'2); recv.recv.firstErr = err! -> false",
+		"[cmpResult.(Bool) && err == nil && recv.recv.keyFunc != None && recv.recv.reverse] recv.s.l.M__getitem__(p1); recv.s.l.M__getitem__(p2); Call(recv.s.keyFunc, composite[(*py.List).M__getitem__#0], nil); Call(recv.s.keyFunc, composite[(*py.List).M__getitem__#0'2], nil); Lt(py.Call#0'2, py.Call#0) -> py.Lt#0",
+		"[cmpResult.(Bool) && err == nil && recv.recv.keyFunc == None && recv.recv.reverse] recv.s.l.M__getitem__(p1); recv.s.l.M__getitem__(p2); Lt((*py.List).M__getitem__#0'2, (*py.List).M__getitem__#0) -> py.Lt#0",
+		"[err != nil && recv.recv.firstErr != nil] recv.s.l.M__getitem__(p1) -> false",
+		"[err != nil && recv.recv.firstErr == nil] recv.s.l.M__getitem__(p1); recv.recv.firstErr = err! -> false",
+		"[err == nil && recv.recv.firstErr != nil && recv.recv.keyFunc != None && recv.recv.reverse] recv.s.l.M__getitem__(p1); recv.s.l.M__getitem__(p2); Call(recv.s.keyFunc, composite[(*py.List).M__getitem__#0], nil); Call(recv.s.keyFunc, composite[(*py.List).M__getitem__#0'2], nil); Lt(py.Call#0'2, py.Call#0) -> false",
+		"[err == nil && recv.recv.firstErr != nil && recv.recv.keyFunc != None] recv.s.l.M__getitem__(p1); recv.s.l.M__getitem__(p2); Call(recv.s.keyFunc, composite[(*py.List).M__getitem__#0], nil) -> false",
+		"[err == nil && recv.recv.firstErr != nil && recv.recv.keyFunc != None] recv.s.l.M__getitem__(p1); recv.s.l.M__getitem__(p2); Call(recv.s.keyFunc, composite[(*py.List).M__getitem__#0], nil); Call(recv.s.keyFunc, composite[(*py.List).M__getitem__#0'2], nil) -> false",
+		"[err == nil && recv.recv.firstErr != nil && recv.recv.keyFunc == None && recv.recv.reverse] recv.s.l.M__getitem__(p1); recv.s.l.M__getitem__(p2); Lt((*py.List).M__getitem__#0'2, (*py.List).M__getitem__#0) -> false",
+		"[err == nil && recv.recv.firstErr != nil] recv.s.l.M__getitem__(p1); recv.s.l.M__getitem__(p2) -> false",
+		"[err == nil && recv.recv.firstErr == nil && recv.recv.keyFunc != None && recv.recv.reverse] recv.s.l.M__getitem__(p1); recv.s.l.M__getitem__(p2); Call(recv.s.keyFunc, composite[(*py.List).M__getitem__#0], nil); Call(recv.s.keyFunc, composite[(*py.List).M__getitem__#0'2], nil); Lt(py.Call#0'2, py.Call#0); recv.recv.firstErr = err! -> false",
+		"[err == nil && recv.recv.firstErr == nil && recv.recv.keyFunc != None] recv.s.l.M__getitem__(p1); recv.s.l.M__getitem__(p2); Call(recv.s.keyFunc, composite[(*py.List).M__getitem__#0], nil); Call(recv.s.keyFunc, composite[(*py.List).M__getitem__#0'2], nil); recv.recv.firstErr = err! -> false",
+		"[err == nil && recv.recv.firstErr == nil && recv.recv.keyFunc != None] recv.s.l.M__getitem__(p1); recv.s.l.M__getitem__(p2); Call(recv.s.keyFunc, composite[(*py.List).M__getitem__#0], nil); recv.recv.firstErr = err! -> false",
+		"[err == nil && recv.recv.firstErr == nil && recv.recv.keyFunc == None && recv.recv.reverse] recv.s.l.M__getitem__(p1); recv.s.l.M__getitem__(p2); Lt((*py.List).M__getitem__#0'2, (*py.List).M__getitem__#0); recv.recv.firstErr = err! -> false",
+		"[err == nil && recv.recv.firstErr == nil] recv.s.l.M__getitem__(p1); recv.s.l.M__getitem__(p2); recv.recv.firstErr = err! -> false",
 	}
 }
